@@ -78,8 +78,48 @@ pub fn build_pool(ls_overrides: &[(usize, u32, u32)]) -> Vec<Base> {
 }
 
 static POOL: OnceLock<Vec<Base>> = OnceLock::new();
+/// The pool; if VCHECK_POOL_FILE names a file written by `save_pool` it is loaded from there (the
+/// fuzz targets do that: building it inside an instrumented binary is ~20x slower), otherwise built.
 pub fn pool(ls_overrides: &[(usize, u32, u32)]) -> &'static Vec<Base> {
-    POOL.get_or_init(|| build_pool(ls_overrides))
+    POOL.get_or_init(|| {
+        if let Ok(path) = std::env::var("VCHECK_POOL_FILE") {
+            if let Some(p) = load_pool(&path, ls_overrides) {
+                return p;
+            }
+        }
+        build_pool(ls_overrides)
+    })
+}
+
+#[derive(Serialize, Deserialize)]
+struct StoredBase {
+    hash: HashId,
+    levels: Vec<Level>,
+    key_id: u64,
+    counter: u64,
+    msg: crate::gen::Hex,
+    sig: crate::gen::Hex,
+    pk: crate::gen::Hex,
+}
+
+pub fn save_pool(path: &std::path::Path, ls_overrides: &[(usize, u32, u32)]) -> std::io::Result<()> {
+    let v: Vec<StoredBase> = pool(ls_overrides)
+        .iter()
+        .map(|b| StoredBase { hash: b.hash, levels: b.levels.clone(), key_id: b.key_id, counter: b.counter, msg: crate::gen::Hex(b.msg.clone()), sig: crate::gen::Hex(b.sig.clone()), pk: crate::gen::Hex(b.pk.clone()) })
+        .collect();
+    std::fs::write(path, serde_json::to_vec(&v).unwrap())
+}
+
+fn load_pool(path: &str, ls_overrides: &[(usize, u32, u32)]) -> Option<Vec<Base>> {
+    let text = std::fs::read(path).ok()?;
+    let v: Vec<StoredBase> = serde_json::from_slice(&text).ok()?;
+    let mut out = Vec::with_capacity(v.len());
+    for b in v {
+        let m = Model::with_overrides(b.hash, ls_overrides);
+        let parsed = hss::parse_signature(&m, &b.sig.0, 64)?;
+        out.push(Base { hash: b.hash, levels: b.levels, key_id: b.key_id, counter: b.counter, msg: b.msg.0, sig: b.sig.0, pk: b.pk.0, parsed });
+    }
+    Some(out)
 }
 
 #[derive(Clone, Copy, Debug, PartialEq, Eq, Serialize, Deserialize)]
